@@ -251,31 +251,7 @@ func c18PersistedIDs(c *Ctx) {
 		seen[v] = n
 	}
 	// CBOR registry order
-	var reg []string
-	for _, fn := range p.sortedFuncs() {
-		if pkgRelOf(fn) != "encoder/registry" {
-			continue
-		}
-		allInstrs(fn, func(in ssa.Instruction) {
-			a, ok := in.(*ssa.Alloc)
-			if !ok {
-				return
-			}
-			if els := arrayLiteral(a); len(els) > 3 && strings.Contains(typeShort(a.Type()), "reflect.Type") {
-				for _, e := range els {
-					t := term(e)
-					// reflect.TypeOf(X{}) → extract the type from the MakeInterface operand
-					name := t
-					if call, ok := stripIface(e).(*ssa.Call); ok && len(call.Call.Args) == 1 {
-						if mi, ok := call.Call.Args[0].(*ssa.MakeInterface); ok {
-							name = typeShort(mi.X.Type())
-						}
-					}
-					reg = append(reg, name)
-				}
-			}
-		})
-	}
+	reg := registryTypes(p) // shared with C07/registry: reflect.TypeOf(X{}) and reflect.TypeFor[X]() entries, in order
 	okr := len(reg) >= len(cborRegistryHistory)
 	for i := range cborRegistryHistory {
 		if i >= len(reg) || reg[i] != cborRegistryHistory[i] {
@@ -322,7 +298,6 @@ func c18PersistedIDs(c *Ctx) {
 	c.floor("persisted-ids", 40)
 }
 
-
 // rootClosureOf: the anonymous function directly nested in outer that (transitively) contains fn.
 func rootClosureOf(fn, outer *ssa.Function) *ssa.Function {
 	for fn != nil && fn.Parent() != outer {
@@ -354,7 +329,9 @@ func migrationOrderAST(p *Prog) []string {
 				return true
 			})
 			// the outermost call is visited first; chain order is the reverse (innermost receiver registered first)
-			sort.Slice(calls, func(i, j int) bool { return calls[i].Fun.(*ast.SelectorExpr).Sel.Pos() < calls[j].Fun.(*ast.SelectorExpr).Sel.Pos() })
+			sort.Slice(calls, func(i, j int) bool {
+				return calls[i].Fun.(*ast.SelectorExpr).Sel.Pos() < calls[j].Fun.(*ast.SelectorExpr).Sel.Pos()
+			})
 			for _, ce := range calls {
 				if len(ce.Args) == 0 {
 					continue
